@@ -2795,6 +2795,8 @@ impl KyroDbService for KyroDBServiceImpl {
         request: Request<FlushRequest>,
     ) -> Result<Response<FlushResponse>, Status> {
         let start = Instant::now();
+        let tenant = self.tenant_context(&request)?;
+        self.enforce_rate_limit(tenant.as_ref())?;
         let req = request.into_inner();
 
         info!(force = req.force, "Hot-tier drain/reconcile requested");
@@ -2830,6 +2832,8 @@ impl KyroDbService for KyroDBServiceImpl {
         &self,
         request: Request<SnapshotRequest>,
     ) -> Result<Response<SnapshotResponse>, Status> {
+        let tenant = self.tenant_context(&request)?;
+        self.enforce_rate_limit(tenant.as_ref())?;
         let req = request.into_inner();
         if !req.path.trim().is_empty() {
             return Err(Status::invalid_argument(
